@@ -206,9 +206,39 @@ for root in ('l', 'm'):
         expv = exp[0][0] if exp else None
         ok = ok and note('Data.get(*bare parts)', Data(doc).get(root, prim) is expv)
         ok = ok and note('get_data without paths', DataPath(root, prim).get_data(doc) is expv)
+        ok = ok and note('Data.get(*bare parts) on one shared Data object', shared.get(root, prim) is expv)
+        ok = ok and note('... and from its root list', Data(doc['l']).get(prim) is (doc['l'][prim] if type(prim) is not float and 0 <= prim < 3 else None))
+        ok = ok and note('shared list Data', shared_l.get(prim) is (doc['l'][prim] if type(prim) is not float and 0 <= prim < 3 else None))
 return ok
 """
+        body = body.replace("ok = True\nfor root in", "shared, shared_l = Data(doc), Data(doc['l'])\nok = True\nfor root in")
         out.append(mk_case(f"c03.history.{n}", [("u1", U), ("u2", "int")], body, pre=[f"BU({L}, u1, u2)"], stubs=["sym_repr"]))
+    # documents whose containers are instances of dict / list subclasses (OrderedDict, defaultdict, a user subclass), at the
+    # root and mid-path: they are mappings / lists like any other
+    body = """
+import collections
+class Seq(list):
+    pass
+inner = collections.OrderedDict([('b', Seq([10, u1, 30])), ('k', u2)])
+doc = collections.OrderedDict([('a', inner), ('c', Seq([{'x': 1}, collections.defaultdict(int, {'x': u2})])), ('d', collections.defaultdict(list, {'y': [u1]}))])
+ok = True
+for PT in ((('prim', 'a'), ('prim', 'b')), (('prim', 'a'), ('prim', 'b'), ('prim', i)), (('prim', 'c'), ('list', NULL), ('prim', 'x')), (('map', NULL),),
+           (('mol', NULL, NULL, NULL), ('mol', NULL, NULL, NULL)), (('prim', 'd'), ('map', NULL), ('list', IX('less_than', i))), (('prim', 'c'), ('prim', 1))):
+    exp = ref_walk(PT, doc)
+    path = build_path(PT)
+    got = path.get_data(doc, return_paths=True)
+    if path_is_concrete(PT):
+        got = [got] if got is not None else []
+    ok = ok and note('selected nodes', len(got) == len(exp) and all(g[0] is e[0] for g, e in zip(got, exp)))
+    ok = ok and same('concrete paths', tx([tuple(g[1]) for g in got]), tx([e[1] for e in exp]))
+    for label, vals in (('wrapped data agrees', path.get_data(Data(doc))), ('bare parts agree', Data(doc).get(*[build_part(p) for p in PT]))):
+        if path_is_concrete(PT):
+            ok = ok and note(label, vals is (exp[0][0] if exp else None))
+        else:
+            ok = ok and note(label, len(vals) == len(exp) and all(g is e[0] for g, e in zip(vals, exp)))
+return ok
+"""
+    out.append(mk_case("c03.walk.container_subclasses", [("i", "int"), ("u1", U), ("u2", "int")], body, pre=[f"BU({L}, i, u1, u2)"], stubs=["sym_repr"]))
     # every entry point, with and without paths, for a symbolic (possibly negative / out of range) int part
     body = """
 doc = {'xs': [u1, u2, 5], 'm': {-1: u1, 2: u2}, 'n': [[u2, 7], {'x': [u1]}]}
